@@ -34,6 +34,8 @@ impl Runtime {
     /// grammar: <https://jmespath.org/specification.html>
     #[inline]
     pub fn compile<'a>(&'a self, expression: &str) -> Result<Expression<'a>, JmespathError> {
+        #[cfg(jmespath_rs_verif)]
+        crate::verif_hooks::point("compile");
         parse(expression).map(|ast| Expression::new(expression, ast, self))
     }
 
@@ -53,6 +55,8 @@ impl Runtime {
     /// Gets a function by name from the runtime.
     #[inline]
     pub fn get_function<'a>(&'a self, name: &str) -> Option<&'a dyn Function> {
+        #[cfg(jmespath_rs_verif)]
+        crate::verif_hooks::point("get_function");
         self.functions.get(name).map(AsRef::as_ref)
     }
 
